@@ -1001,6 +1001,20 @@ func c10tree(c *Ctx) {
 					fail("sublogger", "Sublogger of an unknown name is not nil")
 					return
 				}
+				// a name that differs from an existing logger's name in the CASE of its letters only was never created
+				for _, alt := range []string{strings.ToUpper(want.name), strings.ToLower(want.name)} {
+					exists := false
+					for _, n := range sub {
+						exists = exists || n.name == alt
+					}
+					if alt != want.name && !exists {
+						c.R.Add("lookups_of_a_case_variant_of_an_existing_name", 1)
+						if got := root.e.Sublogger(alt); got != nil {
+							fail("sublogger", fmt.Sprintf("Sublogger(%q) on %s returned the logger %q: no logger of the name asked for was ever created", alt, root.name, got.Name()))
+							return
+						}
+					}
+				}
 				// a name that is looked up BEFORE it exists, from every ancestor, then created, then looked up again
 				lateOK := func() bool {
 					late := fmt.Sprintf("late-%d-%d", idx, k)
